@@ -283,7 +283,12 @@ void    finish_rule (int mach, bool variable_trail_rule, int headcnt, int trailc
 		add_action ("M4_HOOK_SET_RULE_SETUP\n");
 
 	line_directive_out(NULL, infilename, linenum);
-        add_action("[[");
+
+	/* Open the m4 quotes around the action text; a '|' action has no
+	 * text of its own.
+	 */
+	if (!continued_action)
+		add_action("[[");
 }
 
 
